@@ -307,6 +307,16 @@ impl<N> AstChildren<N> {
         ensures old(self).rest().len() == 0 ==> r is None && final(self).rest() == old(self).rest(),
                 old(self).rest().len() > 0 ==> r == Some(old(self).rest()[0]) && final(self).rest() == old(self).rest().skip(1),
     { unimplemented!() }
+    /// Iterator::nth / count / last as std documents them (not used by the analyser today; stated so that an edit which
+    /// starts using them stays inside the verified dialect)
+    #[verifier::external_body] pub fn nth(&mut self, n: usize) -> (r: Option<N>)
+        ensures n < old(self).rest().len() ==> r == Some(old(self).rest()[n as int]) && final(self).rest() == old(self).rest().skip(n as int + 1),
+                n >= old(self).rest().len() ==> r is None && final(self).rest().len() == 0,
+    { unimplemented!() }
+    #[verifier::external_body] pub fn count(self) -> (r: usize) ensures r == self.rest().len() { unimplemented!() }
+    #[verifier::external_body] pub fn last(self) -> (r: Option<N>)
+        ensures self.rest().len() == 0 ==> r is None, self.rest().len() > 0 ==> r == Some(self.rest().last()),
+    { unimplemented!() }
 }
 ''')
     o = U.file(OPS)
@@ -464,10 +474,17 @@ pub assume_specification<T: Clone, EE: Clone> [<Result<T, EE> as Clone>::clone] 
     !context.global(), oq3_v1@.len() + oq3_it1.rest().len() <= block.sp_statements().len(),
     oq3_it1.rest().len() <= block.sp_statements().len(),
     oq3_it1.rest() =~= block.sp_statements().skip(block.sp_statements().len() - oq3_it1.rest().len()),
-    forall|i: int| 0 <= i < block.sp_statements().len() - oq3_it1.rest().len() ==> decl_bound(*context, #[trigger] block.sp_statements()[i]),''')},
-        spec=NONGLOBAL + 'ensures grows(*old(context), *final(context)), r@.len() <= block.sp_statements().len(),\n    ' + DECLS % ('block', 'block'))
-    zov['block_expr_to_asg_type'].update(spec=NONGLOBAL + 'ensures grows(*old(context), *final(context)),\n    ' + DECLS % ('block_synast', 'block_synast'))
-    zov['block_or_stmt_to_asg_type'].update(spec=NONGLOBAL + 'ensures grows(*old(context), *final(context)),')
+    forall|i: int| 0 <= i < block.sp_statements().len() - oq3_it1.rest().len() ==> decl_bound(*context, #[trigger] block.sp_statements()[i]),
+    block_ok(block.sp_statements().take(block.sp_statements().len() - oq3_it1.rest().len()), oq3_v1@),''')},
+        spec=NONGLOBAL + 'ensures grows(*old(context), *final(context)), r@.len() <= block.sp_statements().len(),\n    ' + DECLS % ('block', 'block')
+             + '\n    block_ok(block.sp_statements(), r@),     //@C06:block-holds-the-translations-of-its-statements-in-order',
+        ghost=[('{', 'after', 'proof { assert(block.sp_statements().take(0) =~= Seq::<synast::Stmt>::empty()); }')],
+        loop_ghost='''broadcast use sema_lemmas;
+let ghost ss = block.sp_statements(); let ghost k = ss.len() - oq3_it1.rest().len(); let ghost v0 = oq3_v1@;
+proof { if k < ss.len() { assert(ss.take(k + 1).drop_last() =~= ss.take(k)); assert(ss.take(k + 1).last() == ss[k as int]); assert(oq3_it1.rest()[0] == ss[k as int]); } else { assert(ss.take(k as int) =~= ss); } }''')
+    zov['block_expr_to_asg_type'].update(ret='r', spec=NONGLOBAL + 'ensures grows(*old(context), *final(context)),\n    ' + DECLS % ('block_synast', 'block_synast')
+             + '\n    block_ok(block_synast.sp_statements(), r.statements@),     //@C06:block-holds-the-translations-of-its-statements-in-order')
+    zov['block_or_stmt_to_asg_type'].update(ret='r', spec=NONGLOBAL + 'ensures grows(*old(context), *final(context)),\n    bors_ok(val, r),     //@C06:body-holds-the-translations-of-its-statements')
     zov['bind_parameter_list'].update(ret='r', props=['C09', 'C07', 'C03'], loops={1: ITER('oq3_it1', '''
     oq3_v1@.len() + oq3_it1.rest().len() == param_list.sp_params().len(),
     oq3_it1.rest() =~= param_list.sp_params().skip(oq3_v1@.len() as int),
@@ -495,7 +512,8 @@ ensures grows(*old(context), *final(context)),
     unsupported_stmt(stmt) ==> final(context).errs() == old(context).errs().push(SemanticErrorKind::NotImplementedError),     //@C03:unsupported-statement-reported
     // a declaration that bound nothing (a redeclaration) is marked as such in the graph, and only then
     (r is Some && declared_symbol(r->Some_0) is Some) ==> ((final(context).scopes() == old(context).scopes()) <==> declared_symbol(r->Some_0)->Some_0 is Err),     //@C07:redeclaration-marked-in-the-graph
-    decl_bound(*final(context), stmt),                                                                //@C07:declarations-bind-in-the-scope-of-their-block''')
+    decl_bound(*final(context), stmt),                                                                //@C07:declarations-bind-in-the-scope-of-their-block
+    bodies_ok(stmt, r),                                                                               //@C06,C05:bodies-attached-in-their-roles''')
     zov['expr_stmt_to_asg_stmt'].update(ret='r', props=['C03', 'C06', 'C07', 'C13'], loops={1: ITER_NB('oq3_it1', '''
     oq3_v1@.len() + oq3_it1.rest().len() == mod_gate_call.sp_modifiers().len(),
     oq3_it1.rest() =~= mod_gate_call.sp_modifiers().skip(oq3_v1@.len() as int),
@@ -524,9 +542,7 @@ ensures grows(*old(context), *final(context)),
         ('let params = bind_typed_parameter_list(', 'before', 'proof { assert(context.errs() == old(context).errs() + cond1(!old(context).global(), SemanticErrorKind::NotInGlobalScopeError)); }     //@C13:subroutine-definition-outside-global-scope'),
         ('            let duration =\n                expr_to_asg_texpr(delay_stmt.designator().unwrap().expr(), context).unwrap();', 'after', 'let ghost midd = *context;'),
         ('            Some(asg::Stmt::Delay(asg::DelayStmt::new(', 'before', 'proof { assert(context.errs() == midd.errs() + cond1(!(duration.ty is Duration), SemanticErrorKind::IncompatibleTypesError)); }     //@C13:non-duration-delay-reported'),
-        # ---- C06: an `else` that is written is an else branch of the graph (also an empty one), and only then
-        ('Some(asg::If::new(condition.unwrap(), then_branch, else_branch).to_stmt())', 'before',
-         'proof { assert((else_branch is Some) == (if_stmt.sp_false_body_block_or_stmt() is Some)); }     //@C06:else-branch-iff-written'),
+        # (C06: branches / loop bodies in their roles, else branch iff written: postcondition bodies_ok)
         # ---- C07: a declaration that bound nothing is marked in the graph
         ('context.new_binding(name_str.as_ref(), &typ, &q_decl);', 'after', RM_('symbol_id', 'name_str@')),
         ('Some(asg::GateDefinition::new(gate_name_symbol_id, params, qubits, block).to_stmt())', 'before', RM_('gate_name_symbol_id', 'gate.sp_name()->Some_0.sp_string()')),
